@@ -17,7 +17,9 @@ MANIFEST = {
                   'optimal_percolating_path asks for stop = start + dims*mask in the tiled grid, keeps the first strictly cheapest peak and '
                   'restores dims (C10.perc). Path validity/minimality themselves are networkx contracts (assumed) and are cross-checked only '
                   'by the bounded brute-force stand-in on small grids; free_energy_graph is bounded only in this round. '
-                  'method="minmax-energy" is the recorded known finding C10-minmax-dead.',
+                  'method="minmax-energy" is the recorded known finding C10-minmax-dead; the four corner directions absent from the diagonal '
+                  'movement list are the recorded known finding C10-corner-moves (the stand-in checks the edge set against the full periodic '
+                  '26-neighbourhood of the property minus exactly these directions).',
     'level_note': 'Trusted: networkx shortest_path contract (returns a minimal-cost simple path for non-negative weights or raises NetworkXNoPath), '
                   'numpy tile/array contracts, dataclass construction of Pathway, integers unbounded, pyvc itself.',
     'technique': 'deductive: VCs from the real AST of Pathway.wrapped_sites/frac_sites, optimal_path, optimal_percolating_path with a loop '
@@ -302,6 +304,35 @@ def replay_dispatch(inputs):
     return {'reproduced': bool(bad), 'detail': f'method={method}: ' + '; '.join(bad)}
 
 
+CORNER_REGION = {(1, 1, -1), (-1, -1, 1), (1, -1, 1), (-1, 1, -1)}
+
+
+def replay_corner_moves(inputs):
+    """With diagonal moves every face, edge and corner neighbour is a neighbour: the returned path must not cost more than the cheapest path of
+    the full periodic 26-neighbourhood graph (independent oracle built here)."""
+    import itertools
+    import networkx as nx
+    import numpy as np
+    from gemdat import path as gpath
+    F = np.array(inputs['F'], dtype=float)
+    start, stop = tuple(inputs['start']), tuple(inputs['stop'])
+    thr = 1e7
+    G = gpath.free_energy_graph(F, max_energy_threshold=thr, diagonal=True)
+    p = gpath.optimal_path(G, start=start, stop=stop, method='dijkstra')
+    got = sum(0.5 * (F[a] + F[b]) for a, b in zip(p.sites, p.sites[1:]))
+    H = nx.Graph()
+    nodes = [idx for idx in np.ndindex(*F.shape) if 0 <= F[idx] < thr]
+    H.add_nodes_from(nodes)
+    for u_ in nodes:
+        for m in itertools.product((-1, 0, 1), repeat=3):
+            w = tuple(int(x) for x in (np.array(u_) + m) % F.shape)
+            if m != (0, 0, 0) and w in H and w != u_:
+                H.add_edge(u_, w, weight=0.5 * (F[u_] + F[w]))
+    best = nx.shortest_path_length(H, start, stop, weight='weight')
+    return {'reproduced': got > best + 1e-9,
+            'detail': f'diagonal=True, F.shape={F.shape}: returned path {p.sites} costs {got}; the corner step {tuple(np.subtract(stop, start))} is admissible and costs {best}'}
+
+
 def replay_minmax(inputs):
     """method='minmax-energy' must return a path whose maximal voxel energy is minimal over all admissible paths."""
     import networkx as nx
@@ -521,10 +552,10 @@ def replay_paths(inputs):
     if not diagonal:
         moves = [m for m in moves if sum(abs(x) for x in m) == 1]
     else:
-        # gemdat's diagonal set: faces, xy/xz/yz edges and the (1,1,1)-type corners listed in the source
-        listed = {(1, 1, 0), (-1, -1, 0), (1, -1, 0), (-1, 1, 0), (1, 0, 1), (-1, 0, -1), (1, 0, -1), (-1, 0, 1), (0, 1, 1),
-                  (0, -1, -1), (0, 1, -1), (0, -1, 1), (1, 1, 1), (-1, -1, -1), (1, -1, -1), (-1, 1, 1)}
-        moves = [m for m in moves if sum(abs(x) for x in m) == 1 or m in listed]
+        # the property's neighbourhood is the full 26-neighbourhood (face, edge and corner neighbours).  The code lists only 4 of the 8
+        # corner directions: steps along +-(1,1,-1) and +-(1,-1,1) are missing - the recorded known finding C10-corner-moves, whose
+        # region (exactly these 4 directions) is excluded here and replayed separately by replay_corner_moves
+        moves = [m for m in moves if m not in CORNER_REGION]
     nodes = {idx for idx in np.ndindex(*shape) if 0 <= F[idx] < thr}
     if set(G.nodes) != nodes:
         bad.append('node set differs from {v: 0 <= F[v] < threshold}')
